@@ -2507,6 +2507,7 @@ the glob \fIfoo\fP. Instead, you should use
     fn update(&self, v: FlagValue, args: &mut LowArgs) -> anyhow::Result<()> {
         let glob = convert::string(v.unwrap_value())?;
         args.globs.push(glob);
+        args.glob_order.push(false);
         Ok(())
     }
 }
@@ -3035,6 +3036,7 @@ matched case insensitively.
     fn update(&self, v: FlagValue, args: &mut LowArgs) -> anyhow::Result<()> {
         let glob = convert::string(v.unwrap_value())?;
         args.iglobs.push(glob);
+        args.glob_order.push(true);
         Ok(())
     }
 }
